@@ -504,11 +504,11 @@ impl<'a> Lx<'a> {
                         long: true,
                     });
                 } else {
-                    while !self.at_end() && self.peek(0) != b'\n' && !(self.mode == Mode::Lua51 && self.peek(0) == b'\r') {
+                    // both dialects end a line comment at a carriage return as well as at a line feed (Lua 5.1 llex.c:
+                    // `while (!currIsNewline(ls))`; Luau Lexer.cpp readCommentBody: `peekch() != '\r' && !isNewline(peekch())`)
+                    while !self.at_end() && self.peek(0) != b'\n' && self.peek(0) != b'\r' {
                         self.i += 1;
                     }
-                    // Luau ends a line comment at \n only; a trailing \r belongs to the comment text. We exclude
-                    // a \r that directly precedes \n from the comment text so CRLF files compare naturally.
                     let mut end = self.i;
                     if end > start && self.s[end - 1] == b'\r' && self.peek(0) == b'\n' {
                         end -= 1;
